@@ -29,10 +29,14 @@ Obs == [e |-> last', t |-> now', rs |-> rs', prov |-> prov',
         sc |-> scache', si |-> [i \in DOMAIN sindex' |-> IndexOf(sindex'[i])],
         firing |-> Firing(prov', now'), v |-> Verdicts]
 
-GenPut == \E a \in Pick(PutAlerts), sm \in Pick(StartModes), e \in Pick(Ends(now)), to \in Pick(Timeouts) :
-             PutSync(a, sm, e, to)
+\* the end is picked among those Alert.Validate accepts (start <= end), so that a random
+\* pick (simulation) never disables the step
+GenPut == \E a \in Pick(PutAlerts), sm \in Pick(StartModes), to \in Pick(Timeouts) :
+            \E e \in Pick({x \in Ends(now) : x >= NewAlert(a, sm, x, to).start}) :
+               PutSync(a, sm, e, to)
 \* simulation: time passes in about a quarter of the steps (PickAll: always offered)
-TickGate == \E k \in Pick({1, 2}) : k = 1
+\* (written over `now` so that TLC does not pre-evaluate it as a constant)
+TickGate == \E k \in Pick({now, now + 1}) : k = now
 GenNext == /\ Len(hist) < HistLen
            /\ \/ GenPut
               \/ (now < MaxTime /\ TickGate /\ TickPeriodic)
